@@ -56,12 +56,15 @@ def main():
             record(d, meta, f"tools/mutant.py seeded/{name} --props {','.join(meta['checks'])}", r, r.get("checks", {}))
             continue
         pid = meta["breaks"]
-        p = subprocess.run([os.path.join(VERIF, "tools", "mutant.py"), d, "--props", pid], capture_output=True, text=True)
+        props = meta.get("checks") or [pid]  # a change may be attributed to another claimed property as well
+        p = subprocess.run([os.path.join(VERIF, "tools", "mutant.py"), d, "--props", ",".join(props)], capture_output=True, text=True)
         try:
             r = json.loads(p.stdout)
         except Exception:
             r = {"error": (p.stdout + p.stderr)[-500:]}
-        c = r.get("checks", {}).get(pid, {})
+        by = {k: v.get("exit") for k, v in r.get("checks", {}).items()}
+        catcher = next((k for k in props if by.get(k) == 1), pid)
+        c = r.get("checks", {}).get(catcher, {})
         results[name] = {
             "property": pid,
             "tests_passed": r.get("tests_passed"),
@@ -70,13 +73,15 @@ def main():
             "demo_with": r.get("demo_with"),
             "check_exit": c.get("exit"),
             "caught": c.get("exit") == 1,
+            "caught_by": catcher if c.get("exit") == 1 else None,
+            "exits": by,
             "signatures": c.get("signatures", [])[:5],
             "harness": c.get("harness", []),
             "summary": c.get("summary"),
         }
         print(name, "caught" if results[name]["caught"] else f"NOT CAUGHT (exit {c.get('exit')})", [(s["oracle"], s["locus"]) for s in results[name]["signatures"][:2]], flush=True)
         json.dump(results, open(path, "w"), indent=1, sort_keys=True)
-        record(d, meta, f"tools/mutant.py seeded/{name} --props {pid}", r, {pid: c})
+        record(d, meta, f"tools/mutant.py seeded/{name} --props {','.join(props)}", r, r.get("checks", {}))
 
 
 main()
